@@ -275,7 +275,7 @@ func genThemedLibJob(r *Rand, k int, allowLoad bool, theme string) LibJob {
 
 func jobKey(j *LibJob) string {
 	c := *j
-	c.DecSlot, c.EncSlot, c.LazyInit = 0, 0, false
+	c.DecSlot, c.EncSlot, c.LazyInit, c.SharePrinter = 0, 0, false, false
 	data, _ := json.Marshal(&c)
 	return shortHash(data) + shortHash(append([]byte("k"), data...))
 }
@@ -356,6 +356,28 @@ func (C18) Generate(c *Ctx, r *Rand, index int) *Scenario {
 		}
 		for k := 0; k < n; k++ {
 			lib.Jobs = append(lib.Jobs, genThemedLibJob(rp.Fork("job"+strconv.Itoa(k)), k, true, theme))
+		}
+		// the printer as a kept object (the property names it): for output formats whose printing carries no
+		// separator or comment state from one result to the next, jobs share one printer per encoder instance
+		rpp := rp.Fork("printers")
+		for k := range lib.Jobs {
+			j := &lib.Jobs[k]
+			if (j.API == "stream" || j.API == "all") && (j.OutFmt == "json" || j.OutFmt == "json0" || j.OutFmt == "props") {
+				j.SharePrinter = rpp.Chance(1, 2)
+				j.NulSep = rpp.Chance(1, 4)
+			}
+		}
+		if rpp.Chance(1, 3) {
+			// a value the NUL-separated form must refuse, and healthy ones through the same printer afterwards
+			slot := rpp.Intn(2)
+			out := Pick(rpp, []string{"props", "props", "json0"})
+			bad := LibJob{API: Pick(rpp, []string{"stream", "all"}), Expr: Pick(rpp, []string{".", ".s", "{\"k\": .s}"}), InFmt: "json", OutFmt: "props", Input: Bytes("{\"s\": \"a\\u0000b\", \"id\": \"" + DocID(rpp, 90, 0) + "\"}\n"), EncSlot: slot, ErrAt: -1, SharePrinter: true, NulSep: true}
+			good := LibJob{API: Pick(rpp, []string{"stream", "all"}), Expr: Pick(rpp, []string{".", ".id"}), InFmt: "json", OutFmt: out, Input: Bytes("{\"s\": \"fine\", \"id\": \"" + DocID(rpp, 91, 0) + "\"}\n"), EncSlot: slot, ErrAt: -1, SharePrinter: true, NulSep: true}
+			if out != "props" {
+				good.NulSep = rpp.Chance(1, 2)
+			}
+			lib.Jobs = append(lib.Jobs, bad, good)
+			n = len(lib.Jobs)
 		}
 		for i, steps := 0, rp.Range(10, 40); i < steps; i++ {
 			lib.History = append(lib.History, rp.Intn(n))
